@@ -5,7 +5,7 @@ META = dict(trusted_base=COMMON_TB + [
     "the fold over value lists of symbolic length (POLY) is defined by its unfolding; the composition of the per-step proofs is the induction (meta-level)",
     "GF(32) algebra of the spec (spec/bech32.py) is validated against the BIP173/BIP350 vectors; the generator constants are COMPUTED from g(x), not copied"],
     assumptions=COMMON_ASSUME + [
-        "string-level rules of bech32_decode are proved for every string of length 0..11 (quick; 12, 14, 20, 42, 62 in the thorough tier) with arbitrary characters; the encode->decode round trip of the Bech32 layer for prefixes bc/tb and 19 data lengths up to the 90-character limit; arbitrary prefixes are covered by the per-state lemmas (every prefix state) and a bounded differential run",
+        "string-level rules of bech32_decode are proved for every string of length 0..11 (quick; 12, 14, 20 in the thorough tier) with arbitrary characters; the encode->decode round trip of the Bech32 layer for prefixes bc/tb and 19 data lengths up to the 90-character limit; arbitrary prefixes are covered by the per-state lemmas (every prefix state) and a bounded differential run",
         "error detection is decided by COMPLETE enumeration through linearity over 89 positions (every length the library can emit)"])
 
 
